@@ -85,21 +85,49 @@ static int fast_connect(int k) {
 
 static void pump(void) { vs_pump(scr, ncl, peers, bufs); }
 
-/* bytes peer k received since the last op; FramebufferUpdate messages (Raw rectangles; e.g. the empty
- * update that follows a pointer move, or the answer to a request that was still pending) are left out,
- * resize messages are printed, anything else is printed from there on */
+/* walk one FramebufferUpdate message starting at offset o of peer k's buffer (Raw rectangles and the
+ * cursor pseudo-rectangles); if pic != NULL store the Raw pixels there (size pw x ph) and print the
+ * rectangle headers.  Returns the offset behind the message, 0 if it is incomplete / not understood. */
+static size_t walk_fbu(int k, size_t o, char *pic, int pw, int ph, int verbose) {
+  vs_buf *b = &bufs[k]; unsigned nr, r;
+  if (b->n - o < 4 || b->p[o] != 0) return 0;
+  nr = vs_get16(b->p + o + 2); o += 4;
+  for (r = 0; r < nr; r++) {
+    unsigned x, y, w, h, i, j; int32_t enc; size_t need;
+    if (b->n - o < 12) return 0;
+    x = vs_get16(b->p + o); y = vs_get16(b->p + o + 2); w = vs_get16(b->p + o + 4); h = vs_get16(b->p + o + 6);
+    enc = (int32_t)vs_get32(b->p + o + 8);
+    if (enc == 0) {
+      need = (size_t)w * h * BPP;
+      if (verbose) printf(" r=%u,%u,%u,%u", x, y, w, h);
+      if (b->n - o - 12 < need) return 0;
+      if (pic) {
+        if (x + w > (unsigned)pw || y + h > (unsigned)ph) { if (verbose) printf(" OUTSIDE"); }
+        else for (j = 0; j < h; j++) for (i = 0; i < w; i++)
+          memcpy(pic + ((size_t)(y + j) * pw + x + i) * BPP, b->p + o + 12 + ((size_t)j * w + i) * BPP, BPP);
+      }
+      o += 12 + need;
+    } else if (enc == rfbEncodingXCursor || enc == rfbEncodingRichCursor) {
+      size_t rb = (w + 7) / 8, len = 12;
+      if (w * h) len += (enc == rfbEncodingXCursor ? 6 + rb * h : (size_t)w * h * BPP) + rb * h;
+      if (b->n - o < len) return 0;
+      o += len;
+    } else if (enc == rfbEncodingPointerPos) o += 12;
+    else { if (verbose) printf(" ENC%d", enc); return 0; }
+  }
+  return o;
+}
+
+/* bytes peer k received since the last op; FramebufferUpdate messages (e.g. the empty update that follows
+ * a pointer move, or the answer to a request that was still pending) are applied to the peer's picture
+ * and left out, resize messages are printed, anything else is printed from there on */
 static void print_new_bytes(int k) {
   vs_buf *b = &bufs[k]; size_t i;
   while (b->rd < b->n) {
     unsigned t = b->p[b->rd];
-    if (t == 0 && b->n - b->rd >= 4) {
-      unsigned nr = vs_get16(b->p + b->rd + 2), r; size_t o = b->rd + 4; int ok = 1;
-      for (r = 0; r < nr && ok; r++) {
-        if (b->n - o < 12 || vs_get32(b->p + o + 8) != 0) { ok = 0; break; }
-        o += 12 + (size_t)vs_get16(b->p + o + 4) * vs_get16(b->p + o + 6) * BPP;
-        if (o > b->n) ok = 0;
-      }
-      if (!ok) break;
+    if (t == 0) {
+      size_t o = walk_fbu(k, b->rd, NULL, 0, 0, 0);
+      if (!o) break;
       b->rd = o;
     } else if ((t == rfbResizeFrameBuffer && b->n - b->rd >= sz_rfbResizeFrameBufferMsg) ||
                (t == rfbPalmVNCReSizeFrameBuffer && b->n - b->rd >= sz_rfbPalmVNCReSizeFrameBufferMsg)) {
@@ -141,8 +169,20 @@ int main(void) {
       for (y = 0; y < H; y++) for (x = 0; x < W; x++) setpix(scr->frameBuffer, x, y, (uint32_t)strtoul(p, &p, 16));
       printf("fb ok\n");
     }
+    else if (!strcmp(op, "curs")) {
+      /* curs w h xhot yhot: an opaque X cursor (all bits set), so that clients without cursor-shape
+       * support have it painted into the framebuffer (and into the scaled copies) around their updates */
+      int w = a[0], h = a[1]; char *bits = (char *)malloc((size_t)w * h + 1); rfbCursorPtr c;
+      memset(bits, 'x', (size_t)w * h); bits[w * h] = 0;
+      c = rfbMakeXCursor(w, h, bits, bits); free(bits);
+      c->xhot = a[2]; c->yhot = a[3];
+      c->foreRed = 0xffff; c->foreGreen = 0x8000; c->foreBlue = 0x4000;
+      rfbSetCursor(scr, c);
+      pump();
+      printf("curs ok\n");
+    }
     else if (!strcmp(op, "client")) {
-      int k = ncl, rc; int32_t encs[2]; int ne = 1;
+      int k = ncl, rc; int32_t encs[3]; int ne = 1;
       ncl++;
       rc = fast_connect(k);
       if (rc != 0) { printf("client-failed %d\n", rc); return 3; }
@@ -150,6 +190,8 @@ int main(void) {
       encs[0] = rfbEncodingRaw;
       if (strstr(rest, "zlib")) encs[0] = rfbEncodingZlib;
       if (strstr(rest, "ultra")) encs[0] = rfbEncodingUltra;
+      if (strstr(rest, "rich")) encs[ne++] = rfbEncodingRichCursor;
+      else if (strstr(rest, " x")) encs[ne++] = rfbEncodingXCursor;
       vs_send_set_encodings(peers[k], ne, encs);
       pump();
       bufs[k].rd = bufs[k].n;
@@ -223,28 +265,16 @@ int main(void) {
         vs_send_fur(peers[k], a[1], a[2], a[3], a[4], a[5]);
         pump();
         while (b->n - b->rd >= 4 && b->p[b->rd] == 0) {
-          unsigned nr = vs_get16(b->p + b->rd + 2), r; size_t o = b->rd + 4;
-          for (r = 0; r < nr; r++) {
-            unsigned x, y, w, h, i, j; int32_t enc; size_t need;
-            if (b->n - o < 12) { printf(" TRUNCATED"); goto done; }
-            x = vs_get16(b->p + o); y = vs_get16(b->p + o + 2); w = vs_get16(b->p + o + 4); h = vs_get16(b->p + o + 6);
-            enc = (int32_t)vs_get32(b->p + o + 8);
-            printf(" r=%u,%u,%u,%u", x, y, w, h);
-            if (enc != 0) { printf(" ENC%d", enc); goto done; }
-            need = (size_t)w * h * BPP;
-            if (b->n - o - 12 < need) { printf(" SHORT"); goto done; }
-            if (x + w > (unsigned)sw_ || y + h > (unsigned)sh_) { printf(" OUTSIDE"); o += 12 + need; continue; }
-            for (j = 0; j < h; j++) for (i = 0; i < w; i++)
-              memcpy(pics[k] + ((size_t)(y + j) * sw_ + x + i) * BPP, b->p + o + 12 + ((size_t)j * w + i) * BPP, BPP);
-            o += 12 + need;
-          }
+          size_t o = walk_fbu(k, b->rd, pics[k], sw_, sh_, 1);
+          if (!o) { printf(" MALFORMED"); break; }
           b->rd = o;
         }
         if (b->n != b->rd) { printf(" EXTRA%zu", b->n - b->rd); b->rd = b->n; }
         printf(" size=%dx%d pic=", sw_, sh_); dumpfb(pics[k], sw_ * BPP, sw_, sh_);
         printf(" app="); dumpfb(scr->frameBuffer, W * BPP, W, H);
+        putchar(' '); state();
       }
-      done: putchar('\n');
+      putchar('\n');
     }
     else if (!strcmp(op, "zupd")) {
       /* full non-incremental request of a Zlib/Ultra client: report the announced rectangle count */
